@@ -13,6 +13,9 @@ var Checks = map[string]vh.CheckFunc{
 	"C05": C05,
 	"C06": C06,
 	"C07": C07,
+	"C08": C08,
+	"C09": C09,
+	"C13": C13,
 	"C18": C18,
 }
 
